@@ -132,7 +132,7 @@ class Ctx:
         return True
 
     def write_replay(self, rec):
-        d = os.path.join(HOME, 'replay', self.prop)
+        d = os.path.join(os.environ.get('PWV_REPLAY_DIR') or os.path.join(HOME, 'replay'), self.prop)
         os.makedirs(d, exist_ok=True)
         h = hashlib.sha1(json.dumps([rec['signature'], rec['case']], sort_keys=True).encode()).hexdigest()[:12]
         p = os.path.join(d, h + '.json')
@@ -167,7 +167,7 @@ class Ctx:
             'violations': int(nviol),
         }
         if not self.replay_mode:
-            d = os.path.join(HOME, 'evidence')
+            d = os.environ.get('PWV_EVIDENCE_DIR') or os.path.join(HOME, 'evidence')
             os.makedirs(d, exist_ok=True)
             tmp = os.path.join(d, '.%s.json.tmp%d' % (self.prop, os.getpid()))
             with open(tmp, 'w') as f:
